@@ -1645,7 +1645,9 @@ THEOREMS = {
             "Iauthd.Proto.holdsAfterPassword_spec"],
     "C03": ["Iauthd.Properties.C03_gate_complete", "Iauthd.Properties.C03_counters", "Iauthd.Properties.C03_password_gated",
             "Iauthd.Properties.C03_reply_gated", "Iauthd.Properties.C03_timeout_sticky", "Iauthd.Proto.runOps_hold",
-            "Iauthd.Proto.reqEvent_holdOut", "Iauthd.Proto.xqReply_holdOut", "Iauthd.Proto.gate_removes_if"],
+            "Iauthd.Proto.reqEvent_holdOut", "Iauthd.Proto.xqReply_holdOut", "Iauthd.Proto.gate_removes_if",
+            "Iauthd.Properties.C03_history", "Iauthd.Properties.C03_reload", "Iauthd.Proto.runOps_settled", "Iauthd.Proto.gate_settles",
+            "Iauthd.Proto.reqEvent_settles", "Iauthd.Proto.xqReply_settles"],
     "C04": ["Iauthd.Properties.C04_stray_tag", "Iauthd.Properties.C04_not_awaited", "Iauthd.Properties.C04_tag_exact",
             "Iauthd.Properties.C04_others", "Iauthd.Proto.parseTag_range", "Iauthd.Proto.validateRequest_serial", "Iauthd.Proto.parseTag_routing",
             "Iauthd.Properties.C04_tag_readback", "Iauthd.Properties.C04_tag_injective"],
@@ -1698,7 +1700,9 @@ def lean_modules(prop):
          "Iauthd.Proto.RenderConf", "Iauthd.Addr.ProofsChars"] if prop in ("C09", "C04", "C01", "C10") else []) + (
         ["Iauthd.Proto.Spec01", "Iauthd.Proto.RenderDec", "Iauthd.Proto.Parse01", "Iauthd.Proto.Trace01", "Iauthd.Proto.Sim01",
          "Iauthd.Proto.History01", "Iauthd.Properties.C09"] if prop in ("C01", "C10") else []) + (
-        ["Iauthd.Proto.Count10", "Iauthd.Properties.C01"] if prop == "C10" else []) + ["Iauthd.Properties." + prop]
+        ["Iauthd.Proto.Count10", "Iauthd.Properties.C01"] if prop == "C10" else []) + (
+        ["Iauthd.Proto.Settle03", "Iauthd.Proto.Settle03H", "Iauthd.Proto.RenderInv", "Iauthd.Proto.RenderStep", "Iauthd.Proto.Render",
+         "Iauthd.Proto.RenderHex", "Iauthd.Proto.RenderLines"] if prop == "C03" else []) + ["Iauthd.Properties." + prop]
 
 
 def checker_cmd(prop):
